@@ -234,6 +234,24 @@ CHECKS = {
         "blanks (no equivalent wikitext exists for them).",
         "DESIGN.md 5/C08",
     ),
+    "C09": (
+        "exploration",
+        "history-based differential testing: Hypothesis-generated operation "
+        "histories on one context against a fresh context per step computed "
+        "in a pristine child process; absolute expectations for "
+        "state-mutating Lua pages",
+        "Histories of up to 40 steps (start_page + parse / expand under six "
+        "option sets over a ~70-page corpus including one page per Lua state "
+        "channel, plus construction of other contexts with different options) "
+        "run on one context; each step's expansion / strict tree / message "
+        "records must equal those of a fresh context on the same database. "
+        "Sampled search over histories; the Lua channel list is fixed.",
+        "Trusts the Lua stand-in library and refs/tree.py strict(); message "
+        "traces are not compared; four listed known findings (retained "
+        "module state, shared retained library tables, writable loadData "
+        "tables) are excluded by signature.",
+        "DESIGN.md 5/C09",
+    ),
 }
 
 NOT_YET = "check not built yet in this round (planned in DESIGN.md section 5)"
